@@ -660,12 +660,14 @@ func (m *Dense) Permutation(n int, p []int) {
 //
 //	A[i,0:n] is moved to A[p[i],0:n] for i=0,1,...,m-1.
 //
-// p must have length m, otherwise PermuteRows will panic.
+// p must have length m, otherwise PermuteRows will panic. PermuteRows panics
+// with ErrPivot if p is not a permutation of the integers 0,...,m-1.
 func (m *Dense) PermuteRows(p []int, inverse bool) {
 	r, _ := m.Dims()
 	if len(p) != r {
 		panic(badSliceLength)
 	}
+	checkPermutation(p)
 	lapack64.Lapmr(!inverse, m.mat, p)
 }
 
@@ -680,11 +682,25 @@ func (m *Dense) PermuteRows(p []int, inverse bool) {
 //
 //	A[0:m,j] is moved to A[0:m,p[j]] for j = 0, 1, ..., n-1.
 //
-// p must have length n, otherwise PermuteCols will panic.
+// p must have length n, otherwise PermuteCols will panic. PermuteCols panics
+// with ErrPivot if p is not a permutation of the integers 0,...,n-1.
 func (m *Dense) PermuteCols(p []int, inverse bool) {
 	_, c := m.Dims()
 	if len(p) != c {
 		panic(badSliceLength)
 	}
+	checkPermutation(p)
 	lapack64.Lapmt(!inverse, m.mat, p)
+}
+
+// checkPermutation panics with ErrPivot if p is not a permutation of the
+// integers 0,...,len(p)-1.
+func checkPermutation(p []int) {
+	seen := make([]bool, len(p))
+	for _, v := range p {
+		if v < 0 || len(p) <= v || seen[v] {
+			panic(ErrPivot)
+		}
+		seen[v] = true
+	}
 }
